@@ -274,3 +274,61 @@ Definition Equal (fuel : nat) (E1 : env) (t1 : ty) (E2 : env) (t2 : ty) : option
   | Some a, Some b => Some (beq a b)
   | _, _ => None
   end.
+
+(* ---- measures used by the termination theorem and to choose the budget ---- *)
+
+Definition maxl (l : list nat) : nat := fold_right Nat.max 0 l.
+
+Fixpoint depth (t : ty) : nat :=
+  match t with
+  | TPrim _ => 1
+  | TUser _ => 1
+  | TArr _ e => S (depth e)
+  | TMap _ k _ e => S (Nat.max (depth k) (depth e))
+  | TObj _ fs => S (maxl (map (fun f => depth (ftype f)) fs))
+  | TUnion _ fs => S (maxl (map (fun f => depth (ftype f)) fs))
+  end.
+
+(* the Object pointers occurring in t *)
+Fixpoint keys_ty (t : ty) : list nat :=
+  match t with
+  | TPrim _ => []
+  | TUser _ => []
+  | TArr _ e => keys_ty e
+  | TMap _ k _ e => keys_ty k ++ keys_ty e
+  | TObj key fs => key :: flat_map (fun f => keys_ty (ftype f)) fs
+  | TUnion _ fs => flat_map (fun f => keys_ty (ftype f)) fs
+  end.
+
+(* the user type pointers occurring in t *)
+Fixpoint users_ty (t : ty) : list nat :=
+  match t with
+  | TPrim _ => []
+  | TUser id => [id]
+  | TArr _ e => users_ty e
+  | TMap _ k _ e => users_ty k ++ users_ty e
+  | TObj _ fs => flat_map (fun f => users_ty (ftype f)) fs
+  | TUnion _ fs => flat_map (fun f => users_ty (ftype f)) fs
+  end.
+
+(* the user type pointers occurring in t outside every object: following one of them
+   does not pass through hashObject *)
+Fixpoint open_users (t : ty) : list nat :=
+  match t with
+  | TPrim _ => []
+  | TUser id => [id]
+  | TArr _ e => open_users e
+  | TMap _ k _ e => open_users k ++ open_users e
+  | TObj _ _ => []
+  | TUnion _ fs => flat_map (fun f => open_users (ftype f)) fs
+  end.
+
+Definition env_keys (E : env) : list nat := flat_map (fun p => keys_ty (ut_type (snd p))) E.
+Definition env_depth (E : env) : nat := maxl (map (fun p => depth (ut_type (snd p))) E).
+
+(* recursion budget that suffices when K bounds the number of distinct objects, D the
+   depth of the root and of every user type body, and R the rank of every user type *)
+Definition fuel_of (K D R : nat) : nat := S ((S K) * (S ((S D) * (S (S R))))).
+
+Definition fuel_bound (E : env) (t : ty) (R : nat) : nat :=
+  fuel_of (length (keys_ty t ++ env_keys E)) (Nat.max (depth t) (env_depth E)) R.
